@@ -258,7 +258,7 @@ pub fn classify(rq: &ReqSpec) -> ReqModel {
             }
             Malform::NonAscii { .. } => ReqModel { outcome: Outcome::SilentClose, ends_connection: true },
             Malform::Expect(_) => ReqModel { outcome: Outcome::Auto(417), ends_connection: true },
-            Malform::WsBeforeName { .. } | Malform::WsInName { .. } | Malform::WsBeforeColon { .. } | Malform::BadContentLength { .. } => {
+            Malform::WsBeforeName { .. } | Malform::WsInName { .. } | Malform::WsBeforeColon { .. } | Malform::BadContentLength { .. } | Malform::ContentLengthLinesDisagree { .. } => {
                 ReqModel { outcome: Outcome::Auto(400), ends_connection: true }
             }
         },
